@@ -14,10 +14,24 @@ Definition dpair_ok (rf rx : list N) (vals : list desc) (c : dpcase) : bool :=
   let '(e', o') := dobs_model rf rx (getdv vals i) (getdv vals j) in
   N.eqb e e' && N.eqb o o'.
 
-Record deqdom := mkDEqDom { de_rf : list N; de_rx : list N; de_vals : list desc; de_pairs : list dpcase }.
+(* a pair under a history: (i, j, left operand warmed / a clone of a warmed value, right operand likewise, (impl ==, impl cmp)) *)
+Definition dwcase := (N * N * bool * bool * (N * N))%type.
+Definition with_history (warm : bool) (x : desc) : cdesc :=
+  if warm then cd_clone (cd_warm (fun _ => 0%N) (cd_fresh x)) else cd_fresh x.
+Definition dwpair_ok (rf rx : list N) (vals : list desc) (c : dwcase) : bool :=
+  let '(i, j, wl, wr, (e, o)) := c in
+  let a := with_history wl (getdv vals i) in let b := with_history wr (getdv vals j) in
+  N.eqb e (b2n (cdesc_eq eq_iter a b)) && N.eqb o (cmp_code (cdesc_cmp cmp_iter (kcmp_of rf) (kcmp_of rx) a b)).
+
+Record deqdom := mkDEqDom { de_rf : list N; de_rx : list N; de_vals : list desc; de_pairs : list dpcase; de_wpairs : list dwcase }.
 
 Definition deqdom_ok (d : deqdom) : bool :=
-  forallb (dpair_ok (de_rf d) (de_rx d) (de_vals d)) (de_pairs d).
+  forallb (dpair_ok (de_rf d) (de_rx d) (de_vals d)) (de_pairs d) &&
+  forallb (dwpair_ok (de_rf d) (de_rx d) (de_vals d)) (de_wpairs d).
+
+Definition deqdom_wdiag (d : deqdom) : list (N * N * bool * bool) :=
+  flat_map (fun c : dwcase => if dwpair_ok (de_rf d) (de_rx d) (de_vals d) c then []
+                              else let '(i, j, wl, wr, _) := c in [(i, j, wl, wr)]) (de_wpairs d).
 
 (* failing pairs: (i, j, impl, model) *)
 Definition deqdom_diag (d : deqdom) : list (N * N * (N * N) * (N * N)) :=
